@@ -64,6 +64,23 @@ Section FlattenLemmas.
   Lemma p_flatten_len z n m cons : wlen n m (p_flatten z n m cons).
   Proof. apply flat_loop_len; [apply p_flat_term_len | apply init_len]. Qed.
 
+  Lemma p_flatten_wL_len (z : K) n m cons : length (wL (p_flatten z n m cons)) = n.
+  Proof. apply (p_flatten_len z n m cons). Qed.
+  Lemma p_flatten_wR_len (z : K) n m cons : length (wR (p_flatten z n m cons)) = n.
+  Proof. apply (p_flatten_len z n m cons). Qed.
+  Lemma p_flatten_wO_len (z : K) n m cons : length (wO (p_flatten z n m cons)) = n.
+  Proof. apply (p_flatten_len z n m cons). Qed.
+  Lemma p_flatten_wV_len (z : K) n m cons : length (wV (p_flatten z n m cons)) = m.
+  Proof. apply (p_flatten_len z n m cons). Qed.
+  Lemma v_flatten_wL_len (z : K) n m cons : length (wL (v_flatten z n m cons)) = n.
+  Proof. apply (v_flatten_len z n m cons). Qed.
+  Lemma v_flatten_wR_len (z : K) n m cons : length (wR (v_flatten z n m cons)) = n.
+  Proof. apply (v_flatten_len z n m cons). Qed.
+  Lemma v_flatten_wO_len (z : K) n m cons : length (wO (v_flatten z n m cons)) = n.
+  Proof. apply (v_flatten_len z n m cons). Qed.
+  Lemma v_flatten_wV_len (z : K) n m cons : length (wV (v_flatten z n m cons)) = m.
+  Proof. apply (v_flatten_len z n m cons). Qed.
+
   (* the linear functional the weights represent, on an assignment *)
   Variable w : assignment K.
   Definition Phi (W : weights K) : K :=
